@@ -150,3 +150,13 @@ Proof.
   split; [vm_compute; discriminate|]. split; [vm_compute; reflexivity|]. split; [exact Hh|].
   split; [vm_compute; reflexivity|]. split; [vm_compute; repeat constructor|]. unfold flagged. vm_compute. discriminate.
 Qed.
+
+(** the marks in MEMORY: no history of interface calls changes what [is_dirty] looks at — the boot-sector flag of the parsed header and FAT[1]
+    of the table (C04_reserved_and_bad_preserved) — so every FAT flush of the session writes the cleared clean-shutdown bit again *)
+From PyFatV Require Import Proofs.Inside.
+Theorem C11_state_stays_dirty : forall s s', pre s -> clos_refl_trans st wstep s s' -> is_dirty s' = is_dirty s.
+Proof.
+  intros s s' Hp H. destruct (history_J s s' Hp H) as (A1 & A2 & _). destruct (history_fat_frame s s' Hp H) as (_ & _ & F1 & _).
+  unfold is_dirty, ft. rewrite A1, A2, F1. reflexivity.
+Qed.
+Print Assumptions C11_state_stays_dirty.
